@@ -5,7 +5,7 @@ from sympy import Matrix
 from vsa import front
 from vsa.facts import Facts, unwrap, show, walk, lit_value
 from vsa.front import AnalysisBroken
-from vsa.alg import Fold, S, F as Fn, equal, is_zero, vec_atoms
+from vsa.alg import Fold, S, F as Fn, equal, is_zero, vec_atoms, guard_strs
 from rules import splinelib
 
 LEVEL = "proof"
@@ -258,30 +258,55 @@ def check_potential(rep, F, cls, npar):
                 env[p["decl"]] = params[key]
         fo.run(env)
         return f, fo
+    from vsa.cases import executes
+    Q = sp.Rational
+    lo, hi = S("min_"), S("cut_off_")
+    # the argument is compared only with the two domain bounds: one representative per ordering (bounds included)
+    REPS = [("below", Q(1, 2), False), ("at-min", Q(1), True), ("inside", Q(2), True), ("at-cutoff", Q(3), True), ("above", Q(4), False)]
+
+    def value_at(fo, rv, what):
+        sub = {lo: Q(1), hi: Q(3), r: rv}
+        evs = [e for e in fo.events if e["kind"] == "return"]
+        hit = []
+        for e in evs:
+            x = executes(e, sub)
+            if x is None:
+                raise AnalysisBroken("%s::%s: cannot decide whether a return is taken for r relative to [min_, cut_off_] (guards %s)" % (cls, what, guard_strs(fo, e["guards"])))
+            if x:
+                hit.append(e)
+        if len(hit) != 1:
+            raise AnalysisBroken("%s::%s: %d returns are taken for one argument" % (cls, what, len(hit)))
+        return hit[0]["value"]
+
+    def piecewise(fo, what, f):
+        """in-domain value (must be the same expression at every in-domain representative); out-of-domain must be 0"""
+        vals = {nm: value_at(fo, rv, what) for nm, rv, _ in REPS}
+        inner = vals["inside"]
+        for nm, rv, ins in REPS:
+            v = vals[nm]
+            if isinstance(v, (Matrix, tuple)):
+                raise AnalysisBroken("%s::%s does not fold to a scalar" % (cls, what))
+            if ins:
+                rep.check(is_zero(v - inner), "R7.3", "%s|%s|domain|%s" % (cls, what, nm), "same formula on the closed domain [min_, cut_off_] (%s)" % nm,
+                          "%s::%s uses a different formula at r %s than inside the domain (%s vs %s): value and derivatives disagree on the domain boundary" % (cls, what, nm, v, inner), f.loc())
+            else:
+                rep.check(is_zero(v), "R7.3", "%s|%s|domain|%s" % (cls, what, nm), "0 outside the domain (%s)" % nm,
+                          "%s::%s returns %s %s the domain where CalculateF is 0" % (cls, what, v, nm), f.loc())
+        return inner
     fF, foF = ret("CalculateF", r=r)
     rep.analysed(fF)
-    ins = inside(foF)
-    if len(ins) != 1:
-        raise AnalysisBroken("%s::CalculateF: expected one in-domain return" % cls)
-    Fv, gF = ins[0]
-    dom = [foF.cond_str(c) for c, _, _ in gF]
+    Fv = piecewise(foF, "F", fF)
     lams = [S("lam%d" % k) for k in range(npar)]
     for i in range(npar):
-        fD, foD = ret("CalculateDF", i=sp.Integer(i), r=r)
+        fD, foD = ret("CalculateDF", i=sp.Integer(i), r=r, _0=sp.Integer(i), _1=r)
         rep.analysed(fD)
-        rs = [(v, g) for v, g, _ in foD.returns]
-        if not rs:
-            raise AnalysisBroken("%s::CalculateDF(%d): no return" % (cls, i))
-        v, g = rs[0]
-        domD = [foD.cond_str(c) for c, pol, _ in g if pol]
+        v = piecewise(foD, "DF|%d" % i, fD)
         rep.check(is_zero(sp.diff(Fv, lams[i]) - v), "R7.3", "%s|DF|%d" % (cls, i), "dF/dlam%d == DF(%d) = %s" % (i, i, v),
                   "%s::CalculateDF(%d, r) returns %s but dF/dlam%d = %s" % (cls, i, v, i, sp.diff(Fv, lams[i])), fD.loc(), sample=(i < 2))
-        rep.check(domD[:len(dom)] == dom, "R7.3", "%s|DF-domain|%d" % (cls, i), "same domain guard as CalculateF: %s" % dom,
-                  "%s::CalculateDF(%d) is guarded by %s, CalculateF by %s" % (cls, i, domD, dom), fD.loc())
         for j in range(npar):
             f2, fo2 = ret("CalculateD2F", _0=sp.Integer(i), _1=sp.Integer(j), _2=r, i=sp.Integer(i), j=sp.Integer(j), r=r)
             rep.analysed(f2)
-            v2 = fo2.returns[0][0]
+            v2 = value_at(fo2, Q(2), "D2F|%d,%d" % (i, j))
             rep.check(is_zero(sp.diff(v, lams[j]) - v2), "R7.3", "%s|D2F|%d,%d" % (cls, i, j), "d DF(%d)/dlam%d == D2F(%d,%d)" % (i, j, i, j),
                       "%s::CalculateD2F(%d, %d, r) returns %s but d2F/dlam%d dlam%d = %s (the Hessian entry is wrong%s)" % (
                           cls, i, j, v2, i, j, sp.simplify(sp.diff(v, lams[j])), " and not symmetric" if i != j else ""), f2.loc())
